@@ -137,7 +137,26 @@ def dag_traces(maxn=6):
         it1 = [pos[id(o)] for o in p.values]
         it2 = [pos[id(o)] for o in p.values]
         st = [pos[id(o)] for o in p.runtime_status().get_ops(list(OperatorState))]
-        lines.append([{"tid": tid, "n": n, "par": [list(x) for x in par], "iter": it1, "iter2": it2, "status": st, "len": len(p.values)}])
+        # traversals that are alive at the same time must not disturb each other: lock-step, nested, and a loop whose body
+        # makes the pipeline build its runtime status (which itself walks the DAG)
+        lock = [pos[id(a)] for a, b in zip(iter(p.values), iter(p.values)) if a is b]
+        nested = []
+        for a in p.values:
+            inner = [pos[id(b)] for b in p.values]
+            nested.append(pos[id(a)])
+            if len(inner) != n:
+                nested.append(0)
+        q = Pipeline(f"q{tid}", Priority.QUERY)
+        qops = []
+        for k in range(n):
+            qops.append(q.new_operator([qops[j - 1] for j in par[k]] or None))
+        qpos = {id(o): k + 1 for k, o in enumerate(qops)}
+        lazy = []
+        for o in q.values:
+            o.state()
+            lazy.append(qpos[id(o)])
+        lines.append([{"tid": tid, "n": n, "par": [list(x) for x in par], "iter": it1, "iter2": it2, "status": st, "len": len(p.values),
+                       "lock": lock, "nested": nested, "lazy": lazy}])
     return lines
 
 
